@@ -157,7 +157,7 @@ def make_unit(repo_dir):
     parser_funnel.check_decls(repo_dir)
     lookups.check_decls(repo_dir)
     sz = lookups.table_sizes(repo_dir)
-    lspec = lookups.TYPES % dict(STATICS='', REFERENCE_TYPE_IDX=sz['REFERENCE_TYPE_IDX'], **{k: v[1] for k, v in sz.items() if isinstance(v, tuple)})
+    lspec = lookups.TYPES % dict(version_enum='', STATICS='', REFERENCE_TYPE_IDX=sz['REFERENCE_TYPE_IDX'], **{k: v[1] for k, v in sz.items() if isinstance(v, tuple)})
     spec = lspec + TYPES % dict(version_enum=parser_funnel.version_enum(repo_dir))
     lf = {f.label: f for f in lookups.fns(sz)}
     ff = {f.name: copy.copy(f) for f in parser_funnel.fns() if f.name in ('error', 'optional_error', 'check_version')}
